@@ -36,6 +36,10 @@ func (k msgServer) SubmitValue(ctx context.Context, msg *types.MsgSubmitValue) (
 		return nil, err
 	}
 
+	// store the value in its canonical spelling (no 0x prefix, lower case): validation strips the
+	// prefix, aggregation and the bridge snapshot encoder parse the stored string as plain hex
+	msg.Value = utils.Remove0xPrefix(msg.Value)
+
 	isTokenBridgeDeposit, err := k.keeper.PreventBridgeWithdrawalReport(msg.QueryData)
 	if err != nil {
 		return nil, err
